@@ -220,6 +220,8 @@ func c03Random(c *Case) {
 		d = dg.DeepTree()
 	} else if (c.Index/6)%8 == 6 {
 		d = dg.NSTree(false)
+	} else if (c.Index/6)%8 == 7 {
+		d = dg.NameLikeTree(xgen.Names)
 	} else if dg.Chance(0.6) {
 		d = dg.WideTree(4, 8)
 	} else {
